@@ -138,6 +138,15 @@ def run(ck, prog, ctx):
                         comp = {tuple(e[1] for e in a[3] if e[0] == "f") for a in Prov(prog, bind_closures=False).of_local(cb, 0) if a[0] == "param" and a[2] == 2}
                         ck.ob("SELECT", name + "/key", comp == {("1",)}, "path_to_term picks the candidate with the smallest distance sum (component %s of (ancestor, sum))" % sorted(comp), where=cb.where())
 
+    # ---- no truncating adaptor in the ancestor walks of the distance / path functions (every common ancestor, every parent takes part;
+    # the one `skip(1)` that drops the shared ancestor from the second half of a joined path is part of the contract)
+    from engines import check_complete_iteration as _cci11
+    _cci11(ck, "SHORTCUT", prog, [T + n_ for n_ in ("distance_to_term", "distance_to_ancestor", "path_to_ancestor")], "the ancestors / parents it walks")
+    ptb_ = prog.body(T + "path_to_term")
+    if ptb_ is not None:
+        from engines import hard_truncations as _ht11
+        cuts_ = _ht11(prog, ptb_)
+        ck.ob("SHORTCUT", "complete-iteration/path_to_term", len(cuts_) <= 1 and all(c_[1].callee.method == "skip" for c_ in cuts_), "path_to_term uses %d truncating adaptor(s) (%s); expected: at most the one `skip(1)` that drops the shared ancestor from the way down" % (len(cuts_), ", ".join(c_[1].callee.method for c_ in cuts_) or "none"), where=ptb_.where())
     # ---- the path ends at `other`: where `other`'s id is appended under a test of what the path already ends with, that test looks at the LAST
     # element of the path (a test of the first one appends `other` a second time whenever the way up already ends there)
     pt_ = prog.body(T + "path_to_term")
